@@ -238,6 +238,35 @@ def CEv.foreign (fut tx : Nat) : CEv → Bool
   | .part _ => true
   | .drop f => f != fut
 
+/-! ## the rendez-vous lock of the consumer (`_transactions_lock`)
+The consumer model takes `response` (= the part of `call_operation` after the HTTP round trip) and `part` as atomic steps.
+That is justified when each of them reads and writes the shared state (`_transactions`, the buffer of early parts, the
+future) inside ONE critical section; the traced programs are generated and checked with `oneSection`. -/
+namespace Sync
+
+inductive CAct
+  | acq | rel                 -- `with self._transactions_lock:` enter / leave
+  | scanBuf | appendBuf       -- iterate / append to `_last_operation_invoked_reports`
+  | lookup | getEntry | register | pop   -- `in` / `[]` / `[]=` / `pop` on `_transactions`
+  | complete                  -- `future.set_result`
+deriving DecidableEq, Repr
+
+def CAct.isLock : CAct → Bool
+  | .acq => true
+  | .rel => true
+  | _ => false
+
+/-- the program is `acq; body; rel` with a non-empty body that contains no lock operation: every shared access of the
+    step happens inside one and the same critical section -/
+def oneSection : List CAct → Bool
+  | .acq :: rest =>
+    match rest.reverse with
+    | .rel :: body => !body.isEmpty && body.all (fun a => !a.isLock)
+    | _ => false
+  | _ => false
+
+end Sync
+
 /-! ## the id lock: interleaving semantics of `generate_transaction_id` -/
 namespace Lts
 
